@@ -61,9 +61,20 @@ CHECKS.update({
   ref="4 C03"),
 })
 
+CHECKS.update({
+ "C08": dict(
+  text="(a) The guard check_for_read_only_key as a function over a menu of keys and patterns (also 58-character keys with real client ids): whenever it lets an "
+       "ordinary client pass, the pattern must not reach $SYS outside the client's own graveGoods / lastWill / clientName; (b) call sites on the real core: a sentinel "
+       "under $SYS with a server-side subscriber, then set / cset (any version) / delete / pdelete / publish / spub_init+spub by an ordinary client - sentinel and "
+       "subscriber queue must be unchanged. Known findings (leading wildcard patterns; unguarded publish) are reported, not suppressed.",
+  note=BASE + "Bounds: menu of ~25 keys/patterns, one sentinel, client ids c1/c2/internal; memchr is stubbed by its plain byte loop and library loops get per-loop bounds "
+       "learnt at run time (unwinding assertions on). Outside: last-will / grave-goods application at disconnect (C07), lock requests, HTTP endpoints.",
+  ref="4 C08"),
+})
+
 NA = {
 }
-PENDING = ["C07","C08","C09","C10","C11","C12","C13","C15","C16","C19"]
+PENDING = ["C07","C09","C10","C11","C12","C13","C15","C16","C19"]
 NA_FIXED = {
  "C14": "the property is the serde_json text codec composed with serde derives; the real codec exhausts 17-19 GB / 10 min under Kani/CBMC for a one-field message (measured), and a model codec would only verify the model",
  "C18": "ReDB is an on-disk B-tree behind a background writer task and file I/O; neither the database nor the batching schedule can be executed symbolically here and no pure kernel of the property remains",
